@@ -210,8 +210,10 @@ def e2_drift(params):
                 return k
         return None
     if not all(found.values()):
-        return dict(paths=1, confirmed=0, unknown=1, failed=0, exhausted=False, fails={}, samples=[], solver_checks=0, solver_time=0,
-                    extra="arithmetic kernel of Skedder.run not found by AST pattern: %s" % found)
+        fails = {}
+        validated = _validate_real(fails)
+        return dict(paths=1, confirmed=0, unknown=1, failed=len(fails), exhausted=False, fails=fails, samples=[], solver_checks=0, solver_time=0,
+                    validated=validated, extra="arithmetic kernel of Skedder.run not found by AST pattern: %s" % found)
     r_op = binops[opname(found["resched"], binops)]
     r_rhs_is_period = "attr='period'" in found["resched"]
     r_lhs = "retime"
@@ -225,16 +227,22 @@ def e2_drift(params):
         s = z3.Solver()
         s.set("timeout", 120000)
         s.add(z3.fpGEQ(P, z3.FPVal(2.0 ** -7, F)), z3.fpLEQ(P, z3.FPVal(16.0, F)))
-        p = z3.fpMul(RNE, z3.FPVal(float(m), F), P)
-        s.add(z3.fpToReal(p) == m * z3.fpToReal(P))
+        if m == 1:
+            p = P                       # 1*P is exactly P
+        else:
+            p = z3.fpMul(RNE, z3.FPVal(float(m), F), P)
+            s.add(z3.fpToReal(p) == m * z3.fpToReal(P))
         stamp = z3.FPVal(0.0, F)
         retime = z3.FPVal(0.0, F)
         dev = []
         for n in range(K):
             notyet = d_op(retime, stamp) if d_rhs_stamp else d_op(stamp, retime)
-            run = z3.Not(notyet)
+            if retime.eq(stamp):        # syntactically the same term: x > x (x >= x) is decided without the solver
+                notyet = z3.BoolVal(False) if d_op in (z3.fpGT, z3.fpLT) else z3.Not(z3.fpIsNaN(stamp))
+            run = z3.simplify(z3.Not(notyet))
             dev.append(run != z3.BoolVal(n % m == 0))
-            retime = z3.If(run, r_op(retime, p) if r_rhs_is_period else r_op(stamp, p), retime)
+            nxt = r_op(retime, p) if r_rhs_is_period else r_op(stamp, p)
+            retime = nxt if z3.is_true(run) else (retime if z3.is_false(run) else z3.If(run, nxt, retime))
             stamp = a_op(stamp, P)
         s.add(z3.Or(dev))
         t = time.time()
@@ -244,16 +252,32 @@ def e2_drift(params):
         if r == "sat":
             mdl = s.model()
             Pv = float(mdl.eval(z3.fpToReal(P)).as_fraction()) if hasattr(mdl.eval(z3.fpToReal(P)), "as_fraction") else None
-            key = "C02/float-drift/exact-multiple-period"
+            key = "C02/float-drift/exact-multiple-period" if m > 1 else "C02/float-drift/period-equal-to-tick-skips-a-tick"
             fails.setdefault(key, dict(vals=dict(P=Pv, m=m, K=K), detail="period exactly %d x tick %r deviates from every-%d-th-tick within %d ticks" % (m, Pv, m, K), count=0))["count"] += 1
         elif r == "unsat":
             confirmed += 1
             samples.append(dict(m=m, K=K, result="unsat"))
         else:
             unknown += 1
+    validated = _validate_real(fails)
     return dict(paths=queries, confirmed=confirmed, unknown=unknown, failed=len(fails), exhausted=unknown == 0, fails=fails,
                 samples=samples or [dict(ms=params["ms"], K=K)], solver_checks=queries, solver_time=round(stime, 2),
-                extra=dict(kernel=found), wall=round(time.time() - t0, 2))
+                extra=dict(kernel=found), validated=validated, wall=round(time.time() - t0, 2))
+
+
+def _validate_real(fails):
+    """Validation of the encoding against the real code (not the deciding step): the REAL Skedder is run on decimal and
+    dyadic ticks with a tasker whose period EQUALS the tick (m = 1).  The encoding says such a tasker runs every tick
+    (both accumulations are the same operations on the same values); a real run that disagrees is a replayed
+    counterexample in its own right."""
+    n = 0
+    for P in (0.1, 0.05, 0.2, 0.3, 0.01, 0.7, 0.125, 1.0):
+        out = e2_replay(dict(P=P, m=1, K=40), {})
+        n += 1
+        if out[0] == "fail":
+            fails.setdefault("C02/float-drift/period-equal-to-tick-skips-a-tick",
+                             dict(vals=dict(P=P, m=1, K=40), detail=out[2], count=0))["count"] += 1
+    return n
 
 
 def e2_replay(vals, params):
@@ -310,7 +334,7 @@ def e2_replay(vals, params):
     sk.run()
     exp = [k for k in range(K) if k % m == 0]
     if ticks[:len(exp)] != exp[:len(ticks)] or len(ticks) < len(exp):
-        return ("fail", "C02/float-drift/exact-multiple-period", "tick %r period %d*tick: ran at ticks %s, expected %s" % (P, m, ticks, exp))
+        return ("fail", "C02/float-drift/exact-multiple-period" if m > 1 else "C02/float-drift/period-equal-to-tick-skips-a-tick", "tick %r period %d*tick: ran at ticks %s, expected %s" % (P, m, ticks, exp))
     return ("pass", None, "")
 
 
@@ -337,7 +361,7 @@ def obligations(tier):
                           budget=900 if tier == "quick" else 2400, covers=["period-changed"],
                           bounds=dict(workers=1, ticks=K, P=P, period="[0,3]" if tier == "quick" else "[0,7]", change_tick="[0,K]",
                                       new_period="[0,3]" if tier == "quick" else "[0,7]")))
-    ms = [2] if tier == "quick" else [2, 3, 4]
+    ms = [1, 2] if tier == "quick" else [1, 2, 3, 4]
     out.append(Ob("float/exact-multiple-period", e2_drift, dict(K=8, ms=ms), kind="e2", replay=e2_replay, budget=900,
                   bounds=dict(K=8, m=ms, P="double in [2^-7,16]")))
     return out
